@@ -105,6 +105,9 @@ pub trait Backend: 'static + Send + Sync {
     /// constant-time selection where the configuration has one: `b` if choice else `a`
     fn select(a: &Self::E, b: &Self::E, choice: bool) -> Self::E;
     fn affine_roundtrip(a: &Self::E) -> Self::E;
+    /// the configuration's own validity predicates (ark_serialize::Valid::check / batch_check on the
+    /// element and on its affine form) accept this element; configurations without one say true
+    fn self_check(a: &Self::E) -> Result<(), String>;
     /// the `i`-th operator / method / trait form of the configuration that computes `op`
     /// (C04's catalogue of forms); a plain fallback when the configuration has none
     fn op_form(op: crate::props::c04::Op, i: u8, a: &Self::E, b: &Self::E, c: &Self::E) -> Self::E;
@@ -180,6 +183,16 @@ impl Backend for Ark {
         use crate::props::c04::{apply_ark, forms_of};
         let forms: Vec<_> = forms_of(crate::props::common::Bk::Ark).into_iter().filter(|f| f.op() == op).collect();
         apply_ark(forms[i as usize % forms.len()], *a, *b, *c)
+    }
+    fn self_check(a: &Self::E) -> Result<(), String> {
+        use ark_ec::CurveGroup;
+        use ark_serialize::Valid;
+        a.check().map_err(|e| format!("Valid::check(Element) = {e:?}"))?;
+        let aff = a.into_affine();
+        aff.check().map_err(|e| format!("Valid::check(AffinePoint) = {e:?}"))?;
+        <ark::Element as Valid>::batch_check([*a, *a + ark::Element::GENERATOR].iter()).map_err(|e| format!("Valid::batch_check(Element) = {e:?}"))?;
+        ark::Encoding(a.vartime_compress().0).check().map_err(|e| format!("Valid::check(Encoding) = {e:?}"))?;
+        Ok(())
     }
     fn affine_roundtrip(a: &Self::E) -> Self::E {
         use ark_ec::{AffineRepr, CurveGroup, ScalarMul};
@@ -283,6 +296,9 @@ impl Backend for Min {
             };
         }
         apply_min(forms[i as usize % forms.len()], *a, *b, *c)
+    }
+    fn self_check(_a: &Self::E) -> Result<(), String> {
+        Ok(())
     }
     fn affine_roundtrip(a: &Self::E) -> Self::E {
         *a
